@@ -2,9 +2,62 @@
 C08 helper lemmas, part 3: unfolding of the rule for parameterized super types `Capability<T>` and
 `InclusiveRange<T>`.
 -/
-import Verif.Proofs.SubUnfoldC
+import Verif.Proofs.SubBase
 namespace Verif.Proofs.SubUnfold
 open Verif.Model.Types Verif.Model.Types.Struct Verif.Model.Auth
+
+theorem find_capAny : R.find? (fun r => if r.complex then Ty.capAny.isKind r.super else Ty.capAny == .prim r.super) = some RulesPinned.rule25 := rfl
+theorem find_cap (t : Ty) : R.find? (fun r => if r.complex then (Ty.cap t).isKind r.super else (Ty.cap t) == .prim r.super) = some RulesPinned.rule25 := rfl
+theorem find_range (t : Ty) : R.find? (fun r => if r.complex then (Ty.range t).isKind r.super else (Ty.range t) == .prim r.super) = some RulesPinned.rule25 := rfl
+
+/-! ### parameterized types: `Capability`, `Capability<T>`, `InclusiveRange<T>` -/
+
+theorem find_IR : R.find? (fun r => if r.complex then (Ty.prim "InclusiveRange").isKind r.super else (Ty.prim "InclusiveRange") == .prim r.super) = none := rfl
+
+theorem isSub_one (a b : Ty) : isSub R 1 a b = (a == b) := by simp [isSub, check]
+theorem isSub_self (k : Nat) (t : Ty) : isSub R (k + 1) t t = true := by simp [isSub]
+
+/-- the base type `InclusiveRange` is not below a parameterized type (any fuel) -/
+theorem isSub_IR_param (k : Nat) (x : Ty) (hx : x = .capAny ∨ (∃ t, x = .cap t) ∨ ∃ t, x = .range t) :
+    isSub R k (.prim "InclusiveRange") x = false := by
+  have hf : R.find? (fun r => if r.complex then x.isKind r.super else x == .prim r.super) = some RulesPinned.rule25 := by
+    rcases hx with rfl | ⟨t, rfl⟩ | ⟨t, rfl⟩ <;> rfl
+  have hne : (Ty.prim "InclusiveRange" == x) = false := by
+    rcases hx with rfl | ⟨t, rfl⟩ | ⟨t, rfl⟩ <;> rfl
+  match k with
+  | 0 => rfl
+  | 1 => rw [isSub_one, hne]
+  | 2 => rw [isSub_rule 0 _ _ _ hf, hne]; simp [never, evalPred]
+  | 3 => rw [isSub_rule 1 _ _ _ hf, hne]; simp [never, evalPred, RulesPinned.rule25]
+  | k + 4 => rw [isSub_rule (k + 2) _ _ _ hf, hne]; simp [never, evalPred, RulesPinned.rule25, evalExpr, Ty.isKind]
+
+/-- `Capability` is not below `InclusiveRange` (any fuel) -/
+theorem isSub_capAny_IR (k : Nat) : isSub R k .capAny (.prim "InclusiveRange") = false := by
+  match k with
+  | 0 => rfl
+  | 1 => rw [isSub_one]; rfl
+  | k + 2 => rw [isSub_norule k _ _ find_IR]; rfl
+
+/-- `Capability <: Capability<T>` fails (any fuel) -/
+theorem isSub_capAny_cap (k : Nat) (t : Ty) : isSub R k .capAny (.cap t) = false := by
+  have hne : (Ty.capAny == Ty.cap t) = false := by simp [ty_beq]
+  match k with
+  | 0 => rfl
+  | 1 => rw [isSub_one, hne]
+  | 2 => rw [isSub_rule 0 _ _ _ (find_cap t), hne]; simp [never, evalPred, ty_beq]
+  | 3 => rw [isSub_rule 1 _ _ _ (find_cap t), hne]; simp [never, evalPred, ty_beq, RulesPinned.rule25]
+  | 4 => rw [isSub_rule 2 _ _ _ (find_cap t), hne]; simp [never, evalPred, ty_beq, RulesPinned.rule25, evalExpr, Ty.isKind]
+  | 5 => rw [isSub_rule 3 _ _ _ (find_cap t), hne]; simp [never, evalPred, ty_beq, RulesPinned.rule25, evalExpr, Ty.isKind]
+  | k + 6 => rw [isSub_rule (k + 4) _ _ _ (find_cap t), hne]; simp [never, evalPred, ty_beq, RulesPinned.rule25, evalExpr, Ty.isKind, field, valEqOneOf, valEq]
+
+theorem isSubC_capAny (m : Nat) (a : Ty) :
+    isSub R (m + 12) a .capAny = (a == .capAny || (a == never ||
+      match a with
+      | .cap _ => true
+      | _ => false)) := by
+  rw [isSub_rule (m + 10) a _ _ find_capAny]
+  cases a <;> simp [RulesPinned.rule25, evalPred, evalExpr, field, Ty.isKind, subVal, valEqOneOf, valEq, isSub_self,
+    isSub_IR_param _ _ (Or.inl rfl)]
 
 theorem forAll_one (k : Nat) (env : Env) (p : Pred) (a b : Ty) :
     forAllPairs R (k + 2) env p [a] [b] = evalPred R (k + 1) { env with source := .ty a, target := .ty b } p := by
